@@ -100,6 +100,22 @@ void putSparse(const std::string& path, uint64_t len) {
 	close(fd);
 }
 
+void putPieces(const std::string& path, const std::vector<std::pair<uint64_t, std::vector<uint8_t>>>& pieces, uint64_t total) {
+	mkParent(path);
+	int fd = open(path.c_str(), O_WRONLY | O_CREAT | O_TRUNC, 0666);
+	if (fd < 0) die("create " + path);
+	if (ftruncate(fd, static_cast<off_t>(total)) != 0) { close(fd); die("ftruncate " + path); }
+	for (auto& pc : pieces) {
+		size_t done = 0;
+		while (done < pc.second.size()) {
+			ssize_t k = pwrite(fd, pc.second.data() + done, pc.second.size() - done, static_cast<off_t>(pc.first + done));
+			if (k <= 0) { close(fd); die("pwrite " + path); }
+			done += static_cast<size_t>(k);
+		}
+	}
+	close(fd);
+}
+
 bool get(const std::string& path, std::vector<uint8_t>& out) {
 	struct stat st;
 	if (stat(path.c_str(), &st) != 0 || !S_ISREG(st.st_mode)) return false;
